@@ -5,6 +5,7 @@ import (
 	"io"
 	realioutil "io/ioutil"
 	realos "os"
+	"syscall"
 
 	"verifwork/sched"
 	vos "verifwork/vos"
@@ -26,7 +27,10 @@ func TempFile(dir, pattern string) (*vos.File, error) { return vos.CreateTemp(di
 func TempDir(dir, pattern string) (string, error) { return realioutil.TempDir(dir, pattern) }
 
 func ReadDir(dirname string) ([]realos.FileInfo, error) {
-	sched.Gate("readdir", dirname, "")
+	if sched.Gate("readdir", dirname, "") {
+		sched.Done("readdir", dirname, "", "EIO", sched.Event{"n": 0, "injected": true})
+		return nil, &realos.PathError{Op: "readdir", Path: dirname, Err: syscall.EIO}
+	}
 	es, err := realioutil.ReadDir(dirname)
 	var names []string
 	for _, e := range es {
